@@ -1086,9 +1086,13 @@ def runOp (w : World) (c : TCtl) (op : Op) : Except Panic World := do
       let had := (w.futs.getD f {}).slot
       let w := w.modFut f fun s => { s with slot := false }
       let w ← w.releaseLock fs.slotMutex
-      if had then (w.setStage 2).branch (w.arcInfo fs.arc).obj .arcDec else pure (w.complete .unit)
+      if had then
+        -- (the waker taken here is dropped in the next stage, whatever `block_on` call is current by then)
+        let w := w.modCtl w.tid fun c => { c with taken := fs.arc }
+        (w.setStage 2).branch (w.arcInfo fs.arc).obj .arcDec
+      else pure (w.complete .unit)
     | _ => do
-      let w ← w.wakerDrop fs.arc
+      let w ← w.wakerDrop c.taken
       pure (w.complete .unit)
   | .awWake f =>
     let fs := w.futs.getD f {}
